@@ -1,8 +1,8 @@
 package rules
 
 import (
-	"strings"
 	"golang.org/x/tools/go/ssa"
+	"strings"
 
 	"verif/checker/ir"
 )
